@@ -23,6 +23,59 @@ def view_syms(fb):
     return syms
 
 
+def ptr_form(fb, fn, e, depth=5):
+    """Byte-level linear form of a pointer expression: {base symbol: 1, 1: byte offset}.  Pointer arithmetic is scaled by the
+    pointee size (`header + 1` is sizeof(Header) bytes on), casts between pointer types keep the address, one-line accessors
+    (getHeader(), getRawPayload()) and single-definition locals stand for their expressions."""
+    from rules.decoder_rules import _linear
+    syms = view_syms(fb)
+    x = e
+    while isinstance(x, dict) and x.get("k") == "cast":
+        x = x["e"]
+    if not isinstance(x, dict) or depth < 0:
+        return None
+    s0 = syms(x)
+    if s0:
+        return {s0: 1, 1: 0}
+    if x.get("k") == "ref" and x.get("dk") == "local":
+        ds = facts.local_defs(fn).get(x["decl"], [])
+        return ptr_form(fb, fn, ds[0], depth - 1) if len(ds) == 1 else None
+    if x.get("k") == "call":
+        y = facts.inline_accessor(fb, x)
+        return ptr_form(fb, fn, y, depth - 1) if y is not None else None
+    if x.get("k") == "un" and x.get("op") == "&":
+        t = x["e"]
+        while isinstance(t, dict) and t.get("k") == "cast":
+            t = t["e"]
+        if t.get("k") == "subscript":
+            x = {"k": "bin", "op": "+", "l": t["base"], "r": t["idx"], "id": x.get("id")}
+        elif t.get("k") == "call" and (t.get("callee") or {}).get("nm") == "operator[]" and "obj" in t and fb.is_payload_buffer(t["obj"]) and t.get("args"):
+            f2 = _linear(fn, t["args"][0], syms)
+            return None if f2 is None else dict({"D": 1}, **{k: v for k, v in f2.items()}) if "D" not in f2 else None
+        else:
+            return None
+    if x.get("k") == "bin" and x.get("op") in ("+", "-"):
+        l, r = x["l"], x["r"]
+        lt = (facts.strip(l).get("t") or {})
+        if lt.get("k") != "ptr":
+            if x["op"] == "-":
+                return None
+            l, r = r, l
+            lt = (facts.strip(l).get("t") or {})
+        if lt.get("k") != "ptr":
+            return None
+        scale = lt.get("psize") or 1
+        base = ptr_form(fb, fn, l, depth - 1)
+        off = _linear(fn, r, syms)
+        if base is None or off is None:
+            return None
+        out = dict(base)
+        for k, v in off.items():
+            out[k] = out.get(k, 0) + (v if x["op"] == "+" else -v) * scale
+        return out
+    return None
+
+
 def pointer_rows(fb, ptrf):
     """Linear forms {D|C:<call>: 1, 1: k} of the non-null values the pointer getter returns (one per path)."""
     from rules.decoder_rules import _linear
@@ -33,7 +86,7 @@ def pointer_rows(fb, ptrf):
         v = paths.returned_value(p)
         if v is None or paths.is_null_value(v):
             continue
-        form = _linear(ptrf, v, view_syms(fb))
+        form = ptr_form(fb, ptrf, v)
         out.append((p, v, form))
     return out
 
